@@ -1,6 +1,7 @@
 """C02 — per-property knobs of ./check (see DESIGN.md §6 C02, notes/C02.md)."""
 THEOREMS_TIED = ["Rustic.Props.C02.used_key_attributed", "Rustic.Props.C02.decision_table",
-                 "Rustic.Props.C02.prune_covers_used_keys"]
+                 "Rustic.Props.C02.prune_covers_used_keys", "Rustic.Props.C02.prune_preserves_readable",
+                 "Rustic.Props.C02.marked_packs_stay", "Rustic.Props.C02.recover_brings_back"]
 
 TRUSTED = [
     "hand-written model lean/Rustic/Model/{Prune,Repo}.lean of commands/prune.rs (PrunePlan::new, count_used_blobs, PackInfo::from_pack, "
@@ -13,23 +14,34 @@ TRUSTED = [
     "the safety theorems hold for every candidate order",
 ]
 ASSUMPTIONS = [
-    "the index is truthful about pack contents (a stored pack holds the blobs its index entry lists) — what check() establishes",
+    "the index is truthful about pack contents (a stored pack holds the blobs its index entry lists) — what check() establishes; "
+    "in prune_preserves_readable this is `consistent r` for unmarked entries and `Reads.markedTruthful` for packs marked for deletion",
+    "ids of the pack / index files a prune run writes are fresh (`Reads.freshIndex/freshPacks`: hashes of ciphertext under random nonces); "
+    "index files are stored under distinct ids",
     "blob ids are content hashes: equal (type,id) means equal content",
     "times are whole seconds; spans are given in seconds (no calendar arithmetic)",
     "max-unused percentage < 100 (100 and above belong to C18)",
 ]
-RULE = ("ops from harness/src/c02.rs, one splitmix64 PRNG (VERIF_SEED): `plan` = crafted index states (1-3 index files, <= 16 packs, blob ids from a universe of "
-        "<= 8 ids used under both types, duplicate blobs inside/across packs, duplicate pack entries incl. used+marked, marked packs with times around "
-        "keep-delete, missing/None times, packs missing or with wrong size, unreferenced packs, >255 duplicates, used ids absent from the index) x all option "
-        "flags x limits (unlimited / sizes / 0..99 %) x pack sizers; `info` = PackInfo::from_pack on pack sequences; `hist` = real histories "
-        "(backup of evolving source, concurrent backup pairs giving duplicates, forget, resurrect, index duplication, tree/data id collision, prune with random "
-        "options and injected time). Non-trivial = plan with at least one decision / history with a prune; distinct by hash of (op, observation).")
-EXPLANATION = ("Theorems (lean/Rustic/Props/C02.lean): from_pack accounting, every used key attributed to a pack that is kept/repacked/recovered, decision table, "
-               "no pack undecided, execution covers every used key (kept pack or repacked blob), removals only of Delete packs unless instant-delete, "
-               "marked packs stay until keep-delete passed, recover brings back; prefix-safety of the op list. Correspondence: per-pack decision, all PruneStats "
-               "counters, rebuilt index files, remaining used ids, and the executed storage operations (as sets per phase, with the phase order checked) of the "
-               "real code equal the model's on every crafted case. Oracles on real histories: check(read_data) clean and every snapshot reads back after every "
-               "step; a non-instant prune removes only packs marked >= keep-delete ago; hook plan == Repository::prune_plan.")
+RULE = ("ops from harness/src/c02.rs, one splitmix64 PRNG (VERIF_SEED): `hist` (generated first) = real histories: backup of an evolving source "
+        "(also of an earlier version again: blobs living in marked packs are uploaded again), concurrent backup pairs, tree/data id collision, forget, "
+        "resurrect (`u`), index duplication, a second handle with a stale index whose backup overlaps the prunes in between (`s`…`a<k>`), prune with "
+        "random options (keep-delete 0/1h/23h, instant-delete, limits) and injected time; 3/8 of the histories start with one of three shapes "
+        "{keep-delete>0 + re-upload of marked blobs + repack of the partly used new packs; backup overlapping the marking prune then prune (often "
+        "instant); packs older than keep-delete when marked, second prune right away, then the data is needed again}, 2/8 are purely random. "
+        "`plan` = crafted index states (1-3 index files, <= 16 packs, blob ids from a universe of <= 8 ids used under both types, duplicate blobs "
+        "inside/across packs, duplicate pack entries incl. used+marked, marked packs with times around keep-delete, missing/None times, packs missing or "
+        "with wrong size, unreferenced packs, >255 duplicates, used ids absent from the index) x all option flags x limits (unlimited / sizes / 0..99 %) "
+        "x pack sizers; `info` = PackInfo::from_pack on pack sequences. Non-trivial = plan with at least one decision / history with a prune; "
+        "distinct by hash of (op, observation).")
+EXPLANATION = ("Theorems (lean/Rustic/Props/C02.lean, 20, none partial): from_pack accounting, stats_no_underflow, every used key attributed to a pack that is "
+               "kept/repacked/recovered, decision table, no pack undecided, filter_index_files rebuilds the index file of every pack that changes "
+               "(RepackRebuilt derived), execution covers every used key, removals only of Delete packs unless instant-delete, marked packs stay until "
+               "keep-delete passed, recover brings back, and prune_preserves_readable: after every prefix of the executed operation list of an accepted "
+               "plan every snapshot of a consistent repository is readable (bridge from the prune model to the C03 protocol; non-instant, and instant "
+               "without early-delete-index). Correspondence: per-pack decision, all PruneStats counters, rebuilt index files, remaining used ids, and the "
+               "executed storage operations (as sets per phase, phase order checked) of the real code equal the model's on every crafted case. Oracles on "
+               "real histories: check(read_data) clean and every snapshot reads back after every step; a non-instant prune removes only packs whose mark "
+               "time AS RECORDED BY THE HARNESS (time of the marking prune) is >= keep-delete old; hook plan == Repository::prune_plan.")
 
 
 def nontrivial(op, obs):
@@ -45,7 +57,7 @@ def finding_key(op, impl, model):
     t = op.split(" ")
     k = "c02." + (t[1] if len(t) > 1 else "?")
     if impl.startswith(("panic", "oracle-fail", "nonterminating")):
-        k += ":" + impl.split(" ")[0][:80]
+        k += ":" + impl.split(" ")[0].split("@")[0][:80]   # the step number is not part of the key
     return k
 
 
